@@ -206,6 +206,14 @@ CmpNum(a, b) ==
       [] IsD(a) /\ IsQ(b) -> -CmpQD(b, a)
       [] OTHER            -> CmpDD(a, b)
 
+\* does a (tree-form) value contain a non-finite number?  The order of NaN / infinities is outside the exact domain.
+RECURSIVE HasNonFinite(_)
+HasNonFinite(v) ==
+    CASE v.t = "num" -> v.f = "x"
+      [] v.t = "array" -> \E i \in 1..Len(v.v) : HasNonFinite(v.v[i])
+      [] v.t = "object" -> \E i \in 1..Len(v.v) : HasNonFinite(v.v[i].val)
+      [] OTHER -> FALSE
+
 (***************************** the total preorder (A23) *****************************)
 RECURSIVE CmpSeqCP(_, _)
 CmpSeqCP(x, y) ==       \* strings by code point
